@@ -118,10 +118,14 @@ def run(ctx):
         ok = len(txt) == 3 and re.fullmatch(r"std::size_t seed = hash\(%s\.first\)" % p, txt[0]) and txt[1] == "hash_combine_impl(seed, hash(%s.second))" % p and txt[2] == "return seed"
         ctx.check(bool(ok), "R16.3", pf, "pair-uses-both-members-in-order", "hash(pair) is %s" % txt, pf)
     for ptr in ("unique_ptr", "shared_ptr"):
-        f = pat(lambda f, ptr=ptr: f.qual == "nitro::lang::hash" and f.params and (f.params[0].get("type") or "").startswith("const std::%s<" % ptr))
-        if ctx.anchor("R16.3", "hash(%s)" % ptr, f is not None):
-            r = single_return(f)
-            ctx.check(fmt(r) == "hash((*%s))" % f.params[0]["name"], "R16.3", f, "pointer-hashes-pointee:" + ptr, "hash(%s) returns %s instead of the hash of the pointee (equal values behind different pointers would differ)" % (ptr, fmt(r)), f)
+        # (every overload for that pointer family - with or without a custom deleter - has to hash the pointee)
+        pfs = [f for f in hp if f.qual == "nitro::lang::hash" and f.params and (f.params[0].get("type") or "").startswith("const std::%s<" % ptr)]
+        seen_sites = set()
+        pfs = [f for f in pfs if (f.file, f.line) not in seen_sites and not seen_sites.add((f.file, f.line))]
+        if ctx.anchor("R16.3", "hash(%s)" % ptr, bool(pfs)):
+            for k0, f in enumerate(sorted(pfs, key=lambda g: g.line)):
+                r = single_return(f)
+                ctx.check(fmt(r) == "hash((*%s))" % f.params[0]["name"], "R16.3", f, "pointer-hashes-pointee:" + ptr + ("" if k0 == 0 else "#%d" % (k0 + 1)), "hash(%s) returns %s instead of the hash of the pointee (equal values behind different pointers would differ)" % (ptr, fmt(r)), f)
     hw = pat(lambda f: (f.cls or "") == "nitro::lang::hash_wrapper" and f.op == "()")
     if ctx.anchor("R16.3", "hash_wrapper::operator()", hw is not None):
         r = single_return(hw)
@@ -220,6 +224,11 @@ def run(ctx):
     from .common import rule_no_static_state
     rule_no_static_state(ctx, "R16.6", lambda f: f.file.endswith(("lang/hash.hpp", "lang/tuple_operators.hpp", "lang/unordered.hpp")),
                          "equal values hash differently in different threads / runs of the function, so a container filled by one thread misses every key when queried by another", minimum=6)
+    ctx.rule("R16.7", "a std fold on the hashing path starts from a std::size_t: the accumulator has the start value's type, an int start cuts every intermediate seed to 32 bits (and the boost-style combine shifts/adds a negative int)")
+    from .common import rule_fold_keeps_width
+    rule_fold_keeps_width(ctx, "R16.7", lambda f: f.file.endswith(("lang/hash.hpp", "lang/tuple_operators.hpp")),
+                          "tuples that differ in a leading component only hash alike far more often than std::size_t allows, and on a platform where the cut value is "
+                          "negative the result differs from hashing the same components one by one (pair vs. 2-tuple)", minimum=6)
     ctx.assume("collision frequency and the numeric quality of std::hash are not decided; hashing of floating-point signed zeros is delegated to std::hash")
     ctx.trust("std::tuple's relational operators are lexicographic and form a strict weak order when the element operators do (Appendix D.6)")
 
